@@ -264,6 +264,9 @@ class Profile:
                 self.names.add('%s:%s' % (fn[len(REPO_PREFIX):], co.co_qualname))
 
 
+BEFORE_PATH = []     # callables run before every execution of the harness (e.g. bring process-level state back)
+
+
 def explore(fn, structure, max_paths=100000, max_seconds=600.0, sample_every=97, seed=0, exact_width=False,
             hash_collide=False, cross_every=0):
     """Explore all paths of fn(ctx, structure).  Returns a JSON-able summary."""
@@ -289,6 +292,8 @@ def explore(fn, structure, max_paths=100000, max_seconds=600.0, sample_every=97,
     try:
         while True:
             en.start()
+            for hook in BEFORE_PATH:
+                hook()
             ctx = SymCtx(en)
             if paths == 0:
                 sys.setprofile(prof)
